@@ -263,7 +263,8 @@ def check_valid(ctx: Ctx, fgcol, styles, pos, bg, depth):
         ctx.distinct("nontrivial", (f2, b2, depth))
 
 
-MALFORMED_ALPHA = ["#", "g", "h", "0", "f", "x", ",", " "]
+MALFORMED_ALPHA = ["#", "g", "h", "0", "f", "x", ",", " ", "-", "+", "_", "1"]  # int() accepts signs, blanks and underscores
+LONG_ALPHA = {"quick": ["0", "f", "-", "x"], "thorough": ["0", "f", "-", "+", "_", " ", "x", "\u0663"]}  # '#' + six of these
 MUST_REJECT = [
     "#gggggg", "#ggg", "h256", "h-1", "g101", "g#100", "g#gg", "bold,bold", "underline,bold,underline", "dark red,dark blue",
     "h1,h2", "#fff,black", "nonsense", "dark  red", "darkred", "h", "g", "#", "g#", "#12345", "#1234567", "gx", "hx", "#12", "h1000",
@@ -404,7 +405,9 @@ def run(tier, R):
             tasks.append(("lattice", depth, part, n))
         maxlen = 3 if tier == "quick" else 4
         strings = ["".join(t) for k in range(1, maxlen + 1) for t in itertools.product(MALFORMED_ALPHA, repeat=k)]
-        for part in chunks(strings, 400):
+        if depth >= 88:
+            strings += ["#" + "".join(t) for t in itertools.product(LONG_ALPHA[tier], repeat=6)]
+        for part in chunks(strings, 400 if tier == "quick" else 4000):
             tasks.append(("malformed", depth, part))
         tasks.append(("mustreject", depth))
     for part in chunks(COVER_FG + BASIC_NAMES, 5):
@@ -421,7 +424,7 @@ def run(tier, R):
         "bgs and as bg x 4 fgs, 19 covering fgs x every subset of the six styles (all orders up to 3 settings"
         + (" and 4" if tier == "thorough" else "")
         + f") x colour position x 3 bgs, #rrggbb lattice {9 if tier == 'quick' else 33}^3 + palette steps, all strings of length <= "
-        f"{3 if tier == 'quick' else 4} over {MALFORMED_ALPHA} as fg and bg, must-reject list; all at depths 1,16,88,256,2^24. states = distinct "
+        f"{3 if tier == 'quick' else 4} over {MALFORMED_ALPHA} as fg and bg, '#' + every 6 characters over {LONG_ALPHA[tier]} at depths >= 88, must-reject list; all at depths 1,16,88,256,2^24. states = distinct "
         "(foreground, background, colors) descriptions observed; non-trivial = distinct accepted specs with a non-default colour",
         "exhaustive": True,
     }
